@@ -165,11 +165,14 @@ def check_cache(case, stats):
     if case.get("reuse"):
         # the simulation object has already run (part of) another program and is loaded again: the accounting identity
         # is model-free and holds for every step of every simulation, whatever it did before
-        sim.load_program(WARM)
-        for _ in range(case["reuse"]):
-            if not sim.is_done():
-                sim.step()
-        sim.load_program("nop\nnop")
+        try:
+            sim.load_program(WARM)
+            for _ in range(case["reuse"]):
+                if not sim.is_done():
+                    sim.step()
+            sim.load_program("nop\nnop")
+        except Exception as ex:       # a fixed, valid straight-line program: nothing in it may fail
+            raise Violation("valid-program-fails", case, f"warm-up program on the simulation to be reused: {type(ex).__name__}: {ex!r}")
     rvdrive.load(sim, case["prog"], case.get("regs"), case.get("mem"))
     dpen = (case.get("dcache") or {}).get("pen", 0)
     ipen = (case.get("icache") or {}).get("pen", 0)
